@@ -19,7 +19,7 @@ from __future__ import annotations
 from collections import deque
 from itertools import product
 
-from ..lang import Atomic, Constant, Operator, Predicate, Predicated
+from ..lang import Atomic, Constant, Operated, Operator, Predicate, Predicated
 from ..models import ValueCPL
 from ..proof import Target, adds, rules, swnode
 from ..proof.helpers import FilterHelper, PredNodes
@@ -117,7 +117,17 @@ class Rules(LogicType.Rules):
         def _find_closing_node(self, node, branch, /):
             s = self.sentence(node)
             if s is not None:
-                return branch.find(swnode(-s, node.get('world')))
+                w = node.get('world')
+                found = branch.find(swnode(-s, w))
+                if found is None:
+                    # Identity is symmetric: a = b also contradicts ~ b = a.
+                    atom = -s if type(s) is Operated else s
+                    if type(atom) is Predicated and atom.predicate == Predicate.Identity:
+                        converse = atom.predicate(tuple(reversed(atom.params)))
+                        if atom is s:
+                            converse = ~converse
+                        found = branch.find(swnode(converse, w))
+                return found
 
         def example_nodes(self):
             s = Atomic.first()
